@@ -53,6 +53,12 @@ NEST = [
     ("call-argument", "let q = ident(\n    @F@\n);", None),
     ("select-arm", "let q = select (\"a\", 0) => {\n    a = @F@,\n};", None),
     ("function-body", "let fb = func (p) =>\n    @F@;", "let r = fb(\n    1\n);"),
+    ("module-body", "let mb = module {\n    a = 1,\n} => {\n    let inner =\n        @F@;\n};", "let r = mb{\n    a = 2,\n};"),
+    ("copy-field", "let q = tt{\n    extra = @F@,\n};", None),
+    ("map-callback", "let q = map(\n    func (it) => @F@,\n    ll\n);", None),
+    ("format-argument", "let q = \"v=@\" % (\n    @F@\n);", None),
+    ("binary-right-operand", "let q = tt.have +\n    @F@;", None),
+    ("select-default", "let q = select (\"zz\",\n    @F@) => {\n    a = 1,\n};", None),
 ]
 
 
@@ -90,8 +96,8 @@ def gen_cases(thorough):
     """yields (descriptor, stmts, faulty index, calling index or None)"""
     nbase = 4 if thorough else 3
     for (fname, ftext), (nname, ntext, caller) in itertools.product(FAULTS, NEST):
-        if fname.startswith("syntax") and nname == "function-body":
-            continue        # a syntax fault is found while parsing, not when the function is called
+        if fname.startswith("syntax") and nname in ("function-body", "module-body"):
+            continue        # a syntax fault is found while parsing, not when the function / module is used
         faulty = ntext.replace("@F@", ftext)
         for idx in range(0, nbase + 1):
             base = [BASE[k % len(BASE)].format(i=k, j=k) for k in range(nbase)]
@@ -186,7 +192,8 @@ def run(ctx):
     ctx.bounds = {"fault_kinds": len(FAULTS), "nesting_positions": len(NEST), "statement_indices": (4 if thorough else 3) + 1, "variants": 7,
                   "routes": ["eval_string", "build(path)"]}
     ctx.rule = ("%d fault kinds (3 syntax, unknown name, type mismatch, missing field, missing index, unhandled select, failed cast, fail, wrong "
-                "arity) x %d nesting positions (top level, tuple field, list element, call argument, select arm, function body called from a "
+                "arity) x %d nesting positions (top level, tuple field, list element, call argument, select arm / default, copy field, map "
+                "callback, format argument, right operand on a continuation line, function body called and module body instantiated from a "
                 "later statement) x every statement index of a base program of multi-line statements x {base, 1 one-line / 1 three-line / 3 "
                 "one-line unrelated statements inserted before and, separately, after} x {eval_string, build(path)}. All programs distinct; "
                 "non-trivial = a diagnostic was produced and judged." % (len(FAULTS), len(NEST)))
